@@ -135,15 +135,16 @@ Proof. vm_compute. split; reflexivity. Qed.
 Theorem helpers_added_to_a_field_are_registered : forall tm sc ss ip a n ty d x sub ip',
   occ ss ip (SanField a n ty d (x :: sub)) ip' ->
   forall f T, In f (added_for tm sc ip' a ty (x :: sub)) -> In T (reg_types sc ty) ->
+  (* ... unless the client selected the field himself in the fragment on that very type *)
+  (kind_of sc ty = KOther \/ frag_has (selection_for tm sc ip' a ty (x :: sub)) T f = false) ->
   In ((ip' ++ [a])%list, T, f) (snd (sanitize tm sc ss ip)).
 Proof. exact added_helpers_are_registered. Qed.
-(* ... what is added are `__typename` and `id` only, and only when the (sanitized) selection does not have them already,
-   directly or inside a fragment *)
+(* ... what is added are `__typename` and `id` only, and only when the client did not select the field on that level *)
 Theorem only_the_two_helpers_are_added : forall tm sc ss t f,
   In f (snd (add_scrub_fields tm sc ss t)) -> f = "__typename" \/ f = "id".
 Proof. exact added_only_helpers. Qed.
 Theorem a_helper_is_added_only_when_missing : forall tm sc ss t f,
-  In f (snd (add_scrub_fields tm sc ss t)) -> contains ss f = false.
+  In f (snd (add_scrub_fields tm sc ss t)) -> has_direct ss f = false.
 Proof. exact added_not_selected. Qed.
 Example c02_sanitize_nonvacuous :
   sanitize SanitizeProofs.ex_tm ex_sc ex_in [] =
